@@ -92,12 +92,18 @@ type verifMetrics struct{}
 
 func (verifMetrics) OnRequest(context.Context, *RequestMetrics) {}
 
-type verifGeoIP struct{}
+// verifGeoIP records which addresses the middleware asks about.
+type verifGeoIP struct {
+	asked []netip.Addr
+	hosts []string
+}
 
-func (verifGeoIP) SubnetByLocation(*geoip.Location, netutil.AddrFamily) (netip.Prefix, error) {
+func (*verifGeoIP) SubnetByLocation(*geoip.Location, netutil.AddrFamily) (netip.Prefix, error) {
 	return netip.Prefix{}, nil
 }
-func (verifGeoIP) Data(string, netip.Addr) (*geoip.Location, error) {
+func (g *verifGeoIP) Data(host string, ip netip.Addr) (*geoip.Location, error) {
+	g.asked = append(g.asked, ip)
+	g.hosts = append(g.hosts, host)
 	return &geoip.Location{Country: "NL"}, nil
 }
 
@@ -148,12 +154,13 @@ type verifEnv struct {
 	rstat *verifRuleStat
 	ups   *verifUpstream
 	rw    *verifMainRW
+	geo   *verifGeoIP
 }
 
 func verifNewEnv() *verifEnv { return verifNewEnvMode(&dnsmsg.BlockingModeNullIP{}) }
 
 func verifNewEnvMode(bm dnsmsg.BlockingMode) *verifEnv {
-	e := &verifEnv{flt: &verifFlt{}, bill: &verifBill{}, qlog: &verifQLog{}, rstat: &verifRuleStat{}, ups: &verifUpstream{ttl: 300}, rw: &verifMainRW{}}
+	e := &verifEnv{flt: &verifFlt{}, bill: &verifBill{}, qlog: &verifQLog{}, rstat: &verifRuleStat{}, ups: &verifUpstream{ttl: 300, ip: [4]byte{93, 184, 216, 34}}, rw: &verifMainRW{}, geo: &verifGeoIP{}}
 	e.strg = &verifStorage{flt: e.flt}
 	cloner := agdtest.NewCloner()
 	msgs, err := dnsmsg.NewConstructor(&dnsmsg.ConstructorConfig{
@@ -170,7 +177,7 @@ func verifNewEnvMode(bm dnsmsg.BlockingMode) *verifEnv {
 		BillStat:      e.bill,
 		ErrColl:       agdtest.NewErrorCollector(),
 		FilterStorage: e.strg,
-		GeoIP:         verifGeoIP{},
+		GeoIP:         e.geo,
 		Metrics:       verifMetrics{},
 		QueryLog:      e.qlog,
 		RuleStat:      e.rstat,
@@ -203,7 +210,7 @@ func verifResult(kind int, req *dns.Msg, msgs *dnsmsg.Constructor) filter.Result
 // attributed to a profile, the log entry only with query logging enabled, the client
 // address only with IP logging enabled, and the entry describes this request.
 //
-//verif:harness name=H15a-record tier=quick,thorough bounds="device result kind (anonymous, OK, auth failure), QueryLogEnabled / IPLogEnabled / FilteringEnabled flags symbolic, request verdict from {none, allowed, blocked, modified response, modified request}, response verdict from {none, allowed, blocked}; blocking mode from {null IP, NXDOMAIN, REFUSED}; upstream rcode from {NOERROR, NXDOMAIN, SERVFAIL}; client address, ASN, start time, qtype, message ID symbolic" reach=logged,billed-not-logged,anonymous maxpaths=100000
+//verif:harness name=H15a-record tier=quick,thorough bounds="device result kind (anonymous, OK, auth failure), QueryLogEnabled / IPLogEnabled / FilteringEnabled flags symbolic, request verdict from {none, allowed, blocked, modified response, modified request}, response verdict from {none, allowed, blocked}; blocking mode from {null IP, NXDOMAIN, REFUSED}; upstream rcode from {NOERROR, NXDOMAIN, SERVFAIL}; client address, ASN, start time, qtype, message ID symbolic" reach=logged,billed-not-logged,anonymous,response-country-looked-up maxpaths=100000
 //verif:assume filter storage, upstream, billing, query log and rule statistics are recorder stubs
 func VerifC15Record() {
 	var bm dnsmsg.BlockingMode = &dnsmsg.BlockingModeNullIP{}
@@ -290,5 +297,15 @@ func VerifC15Record() {
 	verifAssert("entry-profile-and-device", en.ProfileID == prof.ID && en.DeviceID == dev.ID && en.ClientASN == asn)
 	verifAssert("entry-verdicts-of-this-request", en.RequestResult == e.flt.reqRes && (reqKind == 4 || reqKind != 0 || en.ResponseResult == e.flt.respRes))
 	verifAssert("entry-rcode-of-the-written-response", int(en.ResponseCode) == e.rw.resp.Rcode)
+	// the response country is looked up for an address of this request's answer
+	upIP := netip.AddrFrom4(e.ups.ip)
+	for k, a := range e.geo.asked {
+		verifAssert("response-country-looked-up-for-this-request's-answer", (a == upIP && e.ups.calls == 1) || a == netip.AddrFrom4([4]byte{203, 0, 113, 9}))
+		verifAssert("response-country-looked-up-for-this-request's-name", e.geo.hosts[k] == "example.org" || e.geo.hosts[k] == "cname.example")
+	}
+	verifAssert("client-country-of-this-request", en.ClientCountry == "DE")
+	if len(e.geo.asked) > 0 {
+		verifReach("response-country-looked-up")
+	}
 	verifReach("logged")
 }
